@@ -3,6 +3,7 @@ import QR.Spec.Svg
 import QR.Proofs.Svg
 import QR.Proofs.SourceTieC13
 import QR.Proofs.Pinned
+import QR.Proofs.Units
 /-
 C13 - SVG factories: each factory draws exactly one correctly placed shape per dark module and none for light modules,
 each shape centred on its module's cell and not larger than the cell.
@@ -80,5 +81,36 @@ theorem C13_source_is_eye (width row col : Nat) : Gen.Code.is_eye width row col 
 /-- the Python functions this property's model mirrors have, in /repo's current working tree, exactly the normalised
     ASTs the model was written and validated against (fingerprints regenerated by T1 on every run) -/
 theorem C13_source_fingerprints : QR.Gen.fp_C13 = QR.Pinned.fp_C13 := by decide
+
+/-! ### `units`: the printed length denotes the half-even quantised value -/
+
+/-- **C13 (units, text)**: `units(pixels)` for `pixels = num/den` is a decimal literal followed by "mm", and the literal -
+    read by the strict reader `Proofs.Units.parseThousandths` (digits, optionally a point and one to three decimals;
+    value in thousandths) - denotes exactly `roundHalfEven (100*num) den` thousandths of a millimetre; in general
+    every `fmtThousandths t` reads back to `t`, so different quantised values print differently -/
+theorem C13_units_roundtrip :
+    (∀ t : Nat, Proofs.Units.parseThousandths (fmtThousandths t) = some t) ∧
+    (∀ a b : Nat, fmtThousandths a = fmtThousandths b → a = b) ∧
+    (∀ num den : Nat, units num den = fmtThousandths (roundHalfEven (100 * num) den) ++ "mm" ∧
+      Proofs.Units.parseThousandths (fmtThousandths (roundHalfEven (100 * num) den)) =
+        some (roundHalfEven (100 * num) den)) :=
+  ⟨Proofs.Units.parse_fmt, fun _ _ h => Proofs.Units.fmtThousandths_injective h,
+    fun _ _ => ⟨rfl, Proofs.Units.parse_fmt _⟩⟩
+
+/-- **C13 (units, rounding)**: the quantised value `q = roundHalfEven a b` is within half a unit of `a / b`:
+    `|q*b - a| ≤ b/2`, stated without division -/
+theorem C13_units_close (a b : Nat) (hb : 0 < b) :
+    2 * (roundHalfEven a b * b) ≤ 2 * a + b ∧ 2 * a ≤ 2 * (roundHalfEven a b * b) + b :=
+  Proofs.Units.roundHalfEven_close a b hb
+
+/-- **C13 (units, exactness)**: when `num/den` pixels is a whole number of thousandths of a millimetre (all default
+    drawers at integer box sizes), nothing is lost by the rounding -/
+theorem C13_units_exact (num den : Nat) (hd : 0 < den) (h : den ∣ 100 * num) :
+    roundHalfEven (100 * num) den = 100 * num / den ∧ (100 * num / den) * den = 100 * num :=
+  Proofs.Units.units_exact num den hd h
+
+/-- instances: 10 px = "1mm", 25/2 px = "1.25mm", 1/3 px = 0.0333.. mm prints "0.033mm", ties go to even -/
+example : units 10 1 = "1mm" ∧ units 25 2 = "1.25mm" ∧ units 1 3 = "0.033mm" ∧ units 1 200 = "0mm" ∧
+    units 3 200 = "0.002mm" ∧ units 1230 1 = "123mm" ∧ units 101 10 = "1.01mm" := by decide
 
 end QR.Props
